@@ -72,7 +72,7 @@ Print Assumptions C03_client_pinned_refuted.
 (* Facts read from sasl.go / internal/saslerr/errors.go by the translator on
    every run: the feature is eligible only on a secured, unauthenticated stream;
    Authn is only ever returned with a nil error and the mask is otherwise zero;
-   the element names, namespace, failure conditions and the payload-length rule
+   the element names, namespace, failure conditions and the guard of the base64 decode
    are the ones the model uses. A source edit that changes any of them breaks
    this obligation. *)
 Theorem C03_source_tables : tables_statement.
